@@ -1,0 +1,12 @@
+//go:build verif
+
+package fmtsort
+
+// Contracts for the deductive checks in /verif (comment-only; see /verif/DESIGN.md).
+
+/*@
+-- fmtsort is a verbatim copy of the standard library's internal/fmtsort; its result shape is assumed.
+assume func Sort(mapValue reflect.Value) (r *SortedMap)
+  modifies alloc, memU
+  ensures r != nil && len(r.Key) == len(r.Value)
+@*/
